@@ -282,6 +282,9 @@ class Tr:
         if t == 'SYM' and len(es) == 6:   # SymMat33(xx, xy,yy, xz,yz,zz) (lower triangle by rows)
             xx, xy, yy, xz, yz, zz = es
             return '((%s, %s, %s), (%s, %s, %s))' % (xx, yy, zz, xy, xz, yz), 'SYM'
+        if t == 'SYM' and len(es) in (1, 3):   # (C29) Inertia_(moment) / SymMat33(s): s on the diagonal; Inertia_(xx,yy,zz): principal moments
+            z = '(nofZ K (0)%Z)'; d = es * 3 if len(es) == 1 else es
+            return '((%s, %s, %s), (%s, %s, %s))' % (d[0], d[1], d[2], z, z, z), 'SYM'
         raise Untranslatable('ctor ' + t)
     def neg(self, e, t):
         if t == 'S': return '(nopp K %s)' % e
